@@ -1267,6 +1267,8 @@ def c16(run):
     run.trace_leg("edge", ["machine", "kind=edge"], verdict=["panic", "simerr", "prefetchpc"])
     run.trace_leg("rand", ["machine", "kind=rand", "strict=30"], verdict=["panic", "simerr", "prefetchpc"])
     run.trace_leg("bound", ["machine", "kind=bound"], verdict=["panic", "simerr", "prefetchpc"])
+    # device state is machine state too: a timer given an open-ended range after construction fires and redraws inside a step
+    run.trace_leg("timeropen", ["machine", "kind=timeropen"], verdict=["panic", "simerr", "prefetchpc"])
     return run.finish(
         rule="seeded random full-memory images, PC at every page boundary (xNN00/xNNFF incl. xFFFF and x0000), all "
              "16 flag combinations, keyboard/display/timer/internal-register mappings; N steps then prefetch_pc(); "
@@ -1293,6 +1295,8 @@ def c28(run):
     run.mc_leg("mc_machine", "MC_Machine", "MC_Machine2.cfg" if run.tier == "thorough" else "MC_Machine.cfg", workers=16, timeout=3000, heap="16g")
     run.trace_leg("machine", ["machine", "kind=all"], verdict=["obs", "obsprop", "panic"])
     run.trace_leg("long", ["machine", "kind=long", "steps=%d" % (70000 if run.tier == "thorough" else 8700)], verdict=["obs", "obsprop", "panic"])
+    # across a run-style call (the observer is cleared when the call begins): one address touched several times within one call
+    run.trace_leg("obsrun", ["machine", "kind=obsrun"], verdict=["obs", "obsprop", "panic"])
     return run.finish(
         rule="all machine scenarios in non-strict and strict mode, and one machine stepped 8700 (thorough: 70000) times in a "
              "row (a prologue executed once, a long loop, rare excursions); the observer map is compared after every event with "
@@ -1376,14 +1380,19 @@ def c30(run):
     run.trace_leg("reset", ["machine", "kind=reset"], verdict=CONF + ["newok", "kept"])
     # MC + RP: C30 stated on MachineProps!ResetOf for every machine reachable by up to 2 (thorough: 3) calls of a 26-call
     # alphabet; every maximal history is then performed on a real simulator, reset, probed, run, reset again
-    run.rp_leg("rp_reset", "MC_Reset", "MC_Reset3.cfg" if run.tier == "thorough" else "MC_Reset.cfg", "reset", "MC_Reset_ops.ndjson",
+    run.rp_leg("rp_reset", "MC_Reset", "MC_Reset.cfg", "reset", "MC_Reset_ops.ndjson",
                verdict=CONF + ["newok", "kept", "nsteps", "pause"], workers=8)
+    if run.tier == "thorough":
+        # depth 3 over the alphabet without the strategy change (a reset into another fill value logs a diff of 52 000
+        # words; two thousand such histories would be gigabytes of trace): 15 625 histories
+        run.rp_leg("rp_reset3", "MC_Reset", "MC_Reset3.cfg", "reset", "MC_Reset_ops3.ndjson",
+                   verdict=CONF + ["newok", "kept", "nsteps", "pause"], workers=8, parallel=True)
     return run.finish(
         rule="MC: on every machine reachable by up to 2 (thorough: 3) calls out of 26 (pokes, steps, flag and initialization-strategy changes, devices and timers "
              "attached and removed, keyboard/display removed, internal registers mapped/unmapped/rebound, MCR set, port writes, "
-             "keys, a breakpoint, a load, a subroutine definition, reset itself: 703 / 18 279 states) TLC evaluates the statement of "
+             "keys, a breakpoint, a load, a subroutine definition, reset itself: 703 states; thorough also depth 3 without the strategy change: 16 276 states) TLC evaluates the statement of "
              "C30 on ResetOf (execution state of a new machine for the current flags, configuration kept, devices io_reset, reset "
-             "idempotent).  RP: each of the 676 (17 576) maximal histories is performed on a real simulator, followed by reset, probes "
+             "idempotent).  RP: each of the 676 (thorough: and 15 625) maximal histories is performed on a real simulator, followed by reset, probes "
              "through the kept ports and mappings, a bounded run that the kept breakpoint must stop, a second reset and two steps; "
              "TV_Machine validates every call.  TV: random histories (loads, steps, register/memory pokes, flag changes, breakpoints, timer and register "
              "devices, internal-register mappings, keyboard IE) followed by reset, twice per run, for Known and Seeded "
